@@ -34,6 +34,63 @@ var intrinsicPopcnt = map[string]int{
 func calleeKey(fn *ssa.Function) string { return shortName(fn.String()) }
 
 func (f *FuncVC) execCall(fr *frame, st *State, x *ssa.Call) {
+	f.execCall1(fr, st, x)
+	if !fr.top || f.C == nil || len(f.C.Ghosts) == 0 {
+		return
+	}
+	com := x.Common()
+	name := ""
+	if com.IsInvoke() {
+		name = com.Method.Name()
+	} else if c := com.StaticCallee(); c != nil {
+		name = c.Name()
+	} else if b, ok := com.Value.(*ssa.Builtin); ok {
+		name = b.Name()
+	}
+	if name == "" {
+		return
+	}
+	f.callOrd[name]++
+	for _, g := range f.C.Ghosts {
+		if g.Callee != name || g.Ord != f.callOrd[name] || g.C.Expr == nil {
+			continue
+		}
+		env := f.envFor(fr, st, x.Pos())
+		if rv, ok := fr.vals[x]; ok {
+			// the call's results are visible to the hint as result / result0..k
+			if rv.K == KTuple {
+				if tp, ok := x.Type().(*types.Tuple); ok {
+					for i := range rv.Elems {
+						if i < tp.Len() {
+							n := fmt.Sprintf("result%d", i)
+							env.vars[n] = rv.Elems[i]
+							env.vtypes[n] = tp.At(i).Type()
+						}
+					}
+				}
+			} else {
+				env.vars["result"], env.vtypes["result"] = rv, x.Type()
+				env.vars["result0"], env.vtypes["result0"] = rv, x.Type()
+			}
+		}
+		switch g.Kind {
+		case "use":
+			if err := env.useLemma(g.C.Expr); err != nil {
+				f.staleClause(g.C, err)
+			}
+		case "assert":
+			t, err := env.boolExpr(g.C.Expr)
+			if err != nil {
+				f.staleClause(g.C, err)
+				continue
+			}
+			f.oblig("assert", st, t, x.Pos(), "ghost assertion: "+g.C.Text)
+			f.assumeUnder(st, t)
+		}
+	}
+}
+
+func (f *FuncVC) execCall1(fr *frame, st *State, x *ssa.Call) {
 	com := x.Common()
 	// builtins
 	if b, ok := com.Value.(*ssa.Builtin); ok {
